@@ -102,6 +102,30 @@ def cases(tier):
             for n in ([['EQ', 0.9], ['GE', 0.7], ['DELAY', 0.7]]):
                 for b in fr_child:
                     progs.append({'start': st, 'roots': [['a', p + [['UNTIL', 'u', n, b], ['D', 0.1]]], ['b', fr_other[1]]]})
+    # family E: connectives of time conditions (the wait must re-check after every wake-up)
+    conn = []
+    tatoms = [['GE', 1], ['GE', 2], ['EQ', 2], ['LT', 1], ['LT', 3], ['EQ', 0], ['GE', -1]]
+    for a, b in itertools.permutations(tatoms, 2):
+        conn.append(['WAIT', ['AND', a, b]])
+        conn.append(['WAIT', ['OR', a, b]])
+    conn += [['WAIT', ['AND', ['GE', 1], ['GE', 2], ['LT', 3]]], ['WAIT', ['OR', ['AND', ['GE', 1], ['LT', 2]], ['EQ', 2]]],
+             ['WAIT', ['AND', ['OR', ['EQ', 1], ['GE', 2]], ['GE', 1]]]]
+    for st in STARTS:
+        for c in conn:
+            for pre in ([], [['D', 1]]):
+                progs.append({'start': st, 'roots': [['a', pre + [c, ['INSTANT']]], ['b', [['D', 1], ['GE', 2]]]]})
+    # family F: a child still waiting for its start date when its until-block ends; the simulation goes on past that date
+    for st in STARTS:
+        for n in ([['DELAY', 1], ['EQ', 1], ['GE', 1]]):
+            for o in ({'after': 2}, {'at': 2}, {'after': 1}):
+                for tail in ([['D', 3]], [['D', 1], ['D', 2]]):
+                    progs.append({'start': st, 'roots': [['a', [['UNTIL', 'u', n, [['DO', 'k1', [['D', 1]], o], ['D', 3]]]] + tail],
+                                                         ['b', [['D', 4]]]]})
+    # family G: an infinite delay ends when the clock reads infinity
+    for st in STARTS:
+        for s1 in ([['D', 'inf']], [['D', 1], ['D', 'inf']], [['GE', 2], ['D', 'inf']]):
+            for s2 in ([['D', 2]], [['D', 'inf']], [['ETERNITY']]):
+                progs.append({'start': st, 'roots': [['a', s1], ['b', s2]]})
     # drop programs that are not valid usim programs (start date in the past)
     valid = []
     for p in progs:
